@@ -6,11 +6,16 @@ from __future__ import annotations
 import json
 
 from . import common as C
+from . import textlayer as T
 from . import wiregen as W
 
-TRUSTED = ["text layer of names (split('.'), UTF-8 encode/decode, join) is glue exercised by the byte-exact differential, not modelled",
+TRUSTED = ["text layer of names: modelled (Zc.NameText: strip one trailing dot, split('.'), per-label UTF-8, '.'.join, str-keyed names table) and "
+           "proved against the label-list encoder model (C01_names_table_text_keys, C01_roundtrip_text); the driver is fed the *text* of every name "
+           "(`=<hex of its UTF-8>`) and splits/encodes itself; CPython's str.split / str.encode / bytes.decode are the reference it is compared with",
+           "lone surrogates in names (UnicodeEncodeError) are not text and are not generated",
            "remaining-TTL arithmetic on integer milliseconds only"]
-ASSUMPTIONS = ["names are handed to the builder as str; labels are compared as UTF-8 bytes"]
+ASSUMPTIONS = ["names are handed to the builder as str; what must come back is the same str (with its trailing dot) from the library's decoder and from "
+               "the strict decoder's labels read as _read_name reads them (model: textOfLabels), and the same labels from the strict decoder"]
 
 EXC = {"NamePartTooLongException": "NamePartTooLongException", "IndexError": "IndexError", "error": "struct.error", "ValueError": "ValueError"}
 
@@ -41,7 +46,9 @@ def lib_decode(pkt):
             return None
         qs = [W.lib_question_tuple(q) for q in inc.questions]
         recs = [W.lib_record_tuple(r) for r in inc.answers()]
-        return (inc.id, inc.flags, qs, recs, (inc.num_questions, inc.num_answers, inc.num_authorities, inc.num_additionals))
+        tqs = [W.lib_question_tuple_text(q) for q in inc.questions]
+        trecs = [W.lib_record_tuple_text(r) for r in inc.answers()]
+        return (inc.id, inc.flags, qs, recs, (inc.num_questions, inc.num_answers, inc.num_authorities, inc.num_additionals), tqs, trecs)
     except Exception as ex:  # noqa: BLE001
         return ("exc", type(ex).__name__)
 
@@ -64,7 +71,7 @@ def boundary_seek(gm, rng):
     return gm
 
 
-def predicates(res, gm, pk, strict_lines, prop):
+def predicates(res, gm, pk, strict_lines, prop, text_lines=None):
     """the property's own sentences on the implementation's packets. Returns (sig, what) or None"""
     inq = gm.in_quantifier()
     if not inq:
@@ -100,6 +107,17 @@ def predicates(res, gm, pk, strict_lines, prop):
             lost = sum(len(b) - len(a) for n, a, b in (("q", gq, exq), ("an", gan, exan), ("au", gau, exau), ("ad", gad, exad)))
             return ("%s:roundtrip-strict:%s:%s" % (prop, ",".join(which), "count" if lost else "content"),
                     "decoding the emitted datagrams with the strict decoder does not give back the %s handed to the builder" % "/".join(which))
+        # the same on the *strings*: the strict decoder's labels read back as _read_name reads them (model: textOfLabels)
+        if text_lines and all(tl is not None and tl.startswith("ok ") for tl in text_lines):
+            tdec = [W.parse_wmsg(tl[3:], text=True) for tl in text_lines]
+            tq = [x for d in tdec for x in d[2]]
+            tsec = [[x for d in tdec for x in d[i]] for i in (3, 4, 5)]
+            txq, txan, txau, txad = gm.expect_text()
+            res.count("text:strict-names-read-as-text-compared")
+            if (tq, tsec[0], tsec[1], tsec[2]) != (txq, txan, txau, txad):
+                which = [n for n, a, b in (("questions", tq, txq), ("answers", tsec[0], txan), ("authorities", tsec[1], txau), ("additionals", tsec[2], txad)) if a != b]
+                return ("%s:roundtrip-strict-text:%s" % (prop, ",".join(which)),
+                        "the names the strict decoder recovers, read as text, are not the strings handed to the builder (%s)" % "/".join(which))
         # header flags / id / TC
         want_id = 0 if gm.multicast else gm.id
         is_query = (gm.flags & 0x8000) == 0
@@ -117,7 +135,9 @@ def predicates(res, gm, pk, strict_lines, prop):
                 return ("%s:over-1460-with-%d-entries" % (prop, n), "a %d-byte datagram carries %d entries" % (len(p), n))
     # the library's own decoder
     exq, exan, exau, exad = gm.expect()
+    txq, txan, txau, txad = gm.expect_text()
     lq, lan, lau, lad = [], [], [], []
+    ltq, ltan, ltau, ltad = [], [], [], []
     for p in pk:
         d = lib_decode(p)
         if d is None or d[0] == "exc":
@@ -136,6 +156,15 @@ def predicates(res, gm, pk, strict_lines, prop):
         lan += recs[:na]
         lau += recs[na:na + nu]
         lad += recs[na + nu:]
+        ltq += d[5]
+        ltan += d[6][:na]
+        ltau += d[6][na:na + nu]
+        ltad += d[6][na + nu:]
+    # the strings themselves, as the library shows them (no splitting by the harness)
+    res.count("text:library-names-compared-as-str")
+    for nm, got, want in (("questions", ltq, txq), ("answers", ltan, txan), ("authorities", ltau, txau), ("additionals", ltad, txad)):
+        if list(map(repr, got)) != list(map(repr, want)):
+            return ("%s:roundtrip-lib-text:%s" % (prop, nm), "DNSIncoming does not give back the %s with the names spelled as handed to the builder" % nm)
     if lq != exq:
         return ("%s:roundtrip-lib:questions" % prop, "DNSIncoming does not give back the questions")
     for nm, got, want in (("answers", lan, exan), ("authorities", lau, exau), ("additionals", lad, exad)):
@@ -183,6 +212,8 @@ def run_prop(ctx, prop, size_bias=None):
                 if len(p) <= 9000:
                     lines.append("strict " + p.hex())
                     idx.append(("strict", k, j))
+                    lines.append("stricttext " + p.hex())
+                    idx.append(("stricttext", k, j))
     model = None
     if ctx["driver_ok"]:
         try:
@@ -191,15 +222,18 @@ def run_prop(ctx, prop, size_bias=None):
             res.notes.append("driver unavailable: %s" % ex)
     enc_out = {}
     strict_out = {}
+    text_out = {}
     if model is not None:
         for (what, k, j), out in zip(idx, model):
             if what == "enc":
                 enc_out[k] = out
-            else:
+            elif what == "strict":
                 strict_out[(k, j)] = out
-    res.rule = ("seeded messages from a vocabulary of names with shared suffixes / case variants / non-ASCII / dotted labels / labels of 62-65 bytes, all 7 record "
+            else:
+                text_out[(k, j)] = out
+    res.rule = ("names are given to the model as text (it splits and encodes); seeded messages from a vocabulary of names with shared suffixes / case variants / non-ASCII incl. U+FFFD / dotted labels / no trailing dot / labels of 62-65 bytes, all 7 record "
                 "kinds, classes incl. 256/0x0101/0x7FFF, flags incl. a caller-set TC, TTL incl. 0 and 2^32-1, remaining-TTL answers around expiry, 0-400 entries per section (authorities 0-300, any kind), TXT payloads steered onto the 1460 and 8966 "
-                "boundaries (second pass using the implementation's own packet length), plus a malformed stream (labels 64-300, strings 256+, bad NSEC); "
+                "boundaries (second pass using the implementation's own packet length), plus a malformed stream (labels 64-300, strings 256+, bad NSEC, the names '', '.', '..', 'a..b', '.a', 'a.b..'), plus sequences of write_name calls with the names table compared; "
                 "non-trivial = distinct (size class, #packets, kinds present, multicast, query, outcome) signatures")
     for k, ((kind, m), (ik, iv)) in enumerate(zip(cases, impl)):
         res.evaluations += 1
@@ -237,9 +271,12 @@ def run_prop(ctx, prop, size_bias=None):
                 res.violate("%s:rejects-short-labels" % prop, "NamePartTooLongException although no label exceeds 63 bytes", case)
             continue
         sl = [strict_out.get((k, j)) for j in range(len(iv))] if model is not None else [None] * len(iv)
-        v = predicates(res, m, iv, sl, prop)
+        tl = [text_out.get((k, j)) for j in range(len(iv))] if model is not None else None
+        v = predicates(res, m, iv, sl, prop, tl)
         if v:
             res.violate(v[0], v[1], case)
+    # the text layer on its own: sequences of write_name(str) on one packet, bytes and the str-keyed names table
+    T.write_stream(res, rng, ctx["tier"], model is not None, g.name)
     return res
 
 
